@@ -763,6 +763,100 @@ theorem stack_cache_history_all (s : Sig) (body : PDict → Res Val) (unh : Call
     simp only [Option.getD_some]
     rw [(ValidCall.reach above hv).resultOf_eq, hv.ok]
 
+/-- the combination the cache layer sees: the call itself, unless `loops` sits above the cache — then a first
+argument given by keyword has become positional (`loopsCall`) -/
+theorem stack_cache_seen (s : Sig) (body : PDict → Res Val) (above : List (Cls × PDict)) (c : Call) (v : Val)
+    (h : ValidCall s body c v) :
+    reach s above c = if Cls.loops ∈ classes above then loopsCall s c else c :=
+  reach_valid_eq s body above c v h
+
+/-- so without `loops` above the cache the statement is about the calls exactly as passed to the stack -/
+theorem stack_cache_history_as_passed (s : Sig) (body : PDict → Res Val) (unh : Call → Bool) (p : PDict)
+    (above below : List (Cls × PDict)) (ha : noCache above) (hb : noCache below) (hl : Cls.loops ∉ classes above)
+    (pre : List Call) (c : Call)
+    (hpre : ∀ x ∈ pre, (∃ v, ValidCall s body x v) ∧ unh x = false ∧ Call.ok x)
+    (hc : (∃ v, ValidCall s body c v) ∧ unh c = false ∧ Call.ok c) :
+    let chain := above ++ (Cls.cache, p) :: below
+    let r := runH s body unh chain {} pre
+    let r' := runH s body unh chain {} (pre ++ [c])
+    ((∀ x ∈ pre, ¬ sameComb x c) →
+      r'.1.evals.length = r.1.evals.length + 1 ∧ r'.2.getLast? = some (applyFn s body c)) ∧
+    ((∃ x ∈ pre, sameComb x c) →
+      r'.1.evals.length = r.1.evals.length ∧
+      ∃ pre1 c0 pre2, pre = pre1 ++ c0 :: pre2 ∧ sameComb c0 c ∧
+        (∀ x ∈ pre1, ¬ sameComb x c) ∧ r'.2.getLast? = some (applyFn s body c0)) := by
+  have hseen : ∀ x, (∃ v, ValidCall s body x v) → reach s above x = x := by
+    rintro x ⟨v, h⟩
+    rw [reach_valid_eq s body above x v h, if_neg hl]
+  have hpre' : ∀ x ∈ pre, HistCall s body unh above x := by
+    intro x hx
+    obtain ⟨h1, h2, h3⟩ := hpre x hx
+    exact ⟨h1, by rw [hseen x h1]; exact h2, by rw [hseen x h1]; exact h3⟩
+  have hc' : HistCall s body unh above c :=
+    ⟨hc.1, by rw [hseen c hc.1]; exact hc.2.1, by rw [hseen c hc.1]; exact hc.2.2⟩
+  obtain ⟨_, h2, h3⟩ := stack_cache_history s body unh p above below ha hb pre c hpre' hc'
+  simp only [hseen c hc.1] at h2 h3
+  refine ⟨fun hno => h2 fun x hx => by rw [hseen x (hpre x hx).1]; exact hno x hx, fun ⟨x, hx, hs⟩ => ?_⟩
+  obtain ⟨hlen, pre1, c0, pre2, hsplit, hs0, hbefore, hlast⟩ := h3 ⟨x, hx, by rw [hseen x (hpre x hx).1]; exact hs⟩
+  have hc0 : c0 ∈ pre := by rw [hsplit]; simp
+  refine ⟨hlen, pre1, c0, pre2, hsplit, by rw [← hseen c0 (hpre c0 hc0).1]; exact hs0, fun y hy => ?_, hlast⟩
+  have hym : y ∈ pre := by rw [hsplit]; simp [hy]
+  rw [← hseen y (hpre y hym).1]; exact hbefore y hy
+
+/-- with `loops` above the cache two DIFFERENT combinations as passed to the stack — `g(a=1)` and `g(1)` — are one
+combination for the cache layer: one execution of `f`, both replies are `f`'s (not a violation: the cached function
+is called with `(1)` both times; `loops` has made the first argument positional) -/
+theorem loops_above_cache_merges :
+    ∃ (s : Sig) (c1 c2 : Call), ¬ sameComb c1 c2 ∧
+      (runH s recBody Call.hasArr [(.loops, []), (.cache, [])] {} [c1, c2]).1.evals.length = 1 ∧
+      (runH s recBody Call.hasArr [(.loops, []), (.cache, [])] {} [c1, c2]).2 = [applyFn s recBody c1, applyFn s recBody c2] := by
+  refine ⟨{ params := ["a"], defaults := [], varargs := none, varkw := none },
+    { args := [], kw := [("a", .cell (.int 1))] }, { args := [.cell (.int 1)], kw := [] }, ?_,
+    by decide +kernel, by decide +kernel⟩
+  rintro ⟨hl, _⟩
+  simp at hl
+
+/-- **the first call of a history is the single-call model**: on an empty cache the stack returns what `evalChain`
+returns — for every stack and every call, valid or not, raising or not -/
+theorem stack_history_first_call (s : Sig) (body : PDict → Res Val) (unh : Call → Bool)
+    (chain : List (Cls × PDict)) (c : Call) :
+    (evalH s body unh chain {} c).2 = evalChain s body chain c :=
+  (evalH_fresh s body unh chain {} c rfl).1
+
+/-- every stack the constructor builds has no cache layer or exactly one, so one of `stack_cache_history` /
+`stack_history_without_cache` applies to it -/
+theorem constructed_stack_shape (ds : List (Cls × PDict)) (base : Nat) :
+    let chain := (mkMany ds { chain := [], base := base }).chain
+    noCache chain ∨ ∃ above p below, chain = above ++ (Cls.cache, p) :: below ∧ noCache above ∧ noCache below :=
+  split_at_cache _ (mk_keeps_distinct ds base)
+
+/-- a stack without a cache layer: every valid call is answered by `f` and executes it once -/
+theorem stack_history_without_cache (s : Sig) (body : PDict → Res Val) (unh : Call → Bool)
+    (chain : List (Cls × PDict)) (hn : noCache chain) (calls : List Call)
+    (hv : ∀ c ∈ calls, ∃ v, ValidCall s body c v) :
+    (runH s body unh chain {} calls).2 = calls.map (applyFn s body) ∧
+    (runH s body unh chain {} calls).1.evals.length = calls.length := by
+  obtain ⟨h1, h2⟩ := runH_noCache s body unh chain hn calls {} hv
+  exact ⟨h1, by rw [h2]; simp⟩
+
+/-- non-vacuity: `try_value(repeat=2)(loops(cache(kwargs_support(f))))` for `f(a, b=2)`, called with `(1)`, `(a=1)`,
+`(1.0)`, `(1, b=3)`, `(1)`: two executions, the third reply is the FIRST result (`a = 1`, not `1.0`) -/
+example :
+    let s : Sig := { params := ["a", "b"], defaults := [.cell (.int 2)], varargs := none, varkw := none }
+    let chain : List (Cls × PDict) :=
+      [(.tryValue, [("repeat", .cell (.int 2))]), (.loops, []), (.cache, []), (.kwargsSupport, [])]
+    let c1 : Call := { args := [.cell (.int 1)], kw := [] }
+    let c2 : Call := { args := [], kw := [("a", .cell (.int 1))] }
+    let c3 : Call := { args := [.cell (.flt 4)], kw := [] }
+    let c4 : Call := { args := [.cell (.int 1)], kw := [("b", .cell (.int 3))] }
+    let ab (b : Int) : Res Val := .ok (.dict [("a", .cell (.int 1)), ("b", .cell (.int b))])
+    ValidCall s recBody c2 (.dict [("a", .cell (.int 1)), ("b", .cell (.int 2))]) ∧
+    (runH s recBody Call.hasArr chain {} [c1, c2, c3, c4, c1]).2 = [ab 2, ab 2, ab 2, ab 3, ab 2] ∧
+    (runH s recBody Call.hasArr chain {} [c1, c2, c3, c4, c1]).1.evals.length = 2 := by
+  refine ⟨⟨?_, ?_, by decide +kernel, by decide +kernel⟩, by decide +kernel, by decide +kernel⟩
+  · intro p hp; simp at hp; subst hp; simp
+  · intro p hp; simp at hp; subst hp; simp
+
 /-! ### unhashable arguments (finding K5)
 
 `runCacheH unh` is the code with its `except` path: a call whose key is unhashable (`unh c`: an ndarray or a
